@@ -1713,6 +1713,15 @@ class multislater(wave_function_auto):
         return jnp.linalg.det(green[jnp.ix_(cre, des)])
 
     @partial(jit, static_argnums=0)
+    def _green_by_orbital(self, green: jax.Array, ref_det: jax.Array) -> jax.Array:
+        """Places the rows of a half green's function (one per occupied reference
+        orbital, in order) at the orbital numbers of those orbitals, because the
+        excitation lists address rows by orbital number. For an aufbau reference the
+        first nocc rows are unchanged."""
+        occ = jnp.nonzero(ref_det, size=green.shape[0])[0]
+        return jnp.zeros((self.norb, self.norb), dtype=green.dtype).at[occ, :].set(green)
+
+    @partial(jit, static_argnums=0)
     def _calc_green_restricted(self, walker: jax.Array, wave_data: dict) -> jax.Array:
         ref_det = wave_data["ref_det"][0]
         return (
@@ -1732,7 +1741,9 @@ class multislater(wave_function_auto):
             wave_data["coeff"],
             wave_data["ref_det"],
         )
-        green = self._calc_green_restricted(walker, wave_data)
+        green = self._green_by_orbital(
+            self._calc_green_restricted(walker, wave_data), ref_det[0]
+        )
 
         # overlap with the reference determinant
         overlap_0 = (
@@ -1797,6 +1808,10 @@ class multislater(wave_function_auto):
             wave_data["ref_det"],
         )
         green = self._calc_green(walker_up, walker_dn, wave_data)
+        green = [
+            self._green_by_orbital(green[0], ref_det[0]),
+            self._green_by_orbital(green[1], ref_det[1]),
+        ]
 
         # overlap with the reference determinant
         overlap_0 = jnp.linalg.det(
